@@ -66,34 +66,28 @@ impl Remover {
         let mut merged_ranges = Vec::new();
         let mut range_cursor = 0;
         for (range, idx) in ranges {
-            let item = {
-                // Pop item from pending_ranges
-                if range_cursor < ranges_pending.len() {
-                    let (pending_range, idx) = &ranges_pending[range_cursor];
-
-                    if pending_range.start < range.end {
-                        range_cursor += 1;
-
-                        let can_squash = range.contains(&pending_range.start)
-                            && range.contains(&pending_range.end);
-                        if can_squash {
-                            None
-                        } else {
-                            Some((pending_range.clone(), *idx))
-                        }
-                    } else {
-                        None
-                    }
-                } else {
-                    None
-                }
-            };
-
-            if let Some(item) = item {
-                merged_ranges.push((item, false));
+            // Pending ranges that start before this ready range come first.
+            while range_cursor < ranges_pending.len()
+                && ranges_pending[range_cursor].0.start < range.start
+            {
+                merged_ranges.push((ranges_pending[range_cursor].clone(), false));
+                range_cursor += 1;
             }
 
             merged_ranges.push(((range.clone(), idx), true));
+
+            // Pending ranges inside this ready range are squashed, overlapping ones follow it.
+            while range_cursor < ranges_pending.len()
+                && ranges_pending[range_cursor].0.start < range.end
+            {
+                let (pending_range, _) = &ranges_pending[range_cursor];
+                let can_squash =
+                    range.contains(&pending_range.start) && range.contains(&pending_range.end);
+                if !can_squash {
+                    merged_ranges.push((ranges_pending[range_cursor].clone(), false));
+                }
+                range_cursor += 1;
+            }
         }
 
         if range_cursor < ranges_pending.len() {
